@@ -1,5 +1,6 @@
 #include "libphysica/Linear_Algebra.hpp"
 
+#include <algorithm>
 #include <cmath>
 #include <numeric>
 
@@ -272,7 +273,11 @@ Vector Spherical_Coordinates(double r, double theta, double phi)
 Vector Spherical_Coordinates(double r, double theta, double phi, const Vector& axis)
 {
 	libphysica::Vector ev = axis.Normalized();
-	double aux			  = std::hypot(ev[0], ev[1]);	// (the squares underflow for axes within 1e-154 of +-z)
+	// Transverse length as scale * hyp with hyp in [1, sqrt(2)]: the squares underflow for axes within 1e-154 of +-z, and a
+	// subnormal transverse length has too few significant bits to normalise the transverse direction with.
+	double scale = std::max(std::fabs(ev[0]), std::fabs(ev[1]));
+	double hyp	 = (scale == 0.0) ? 0.0 : std::hypot(ev[0] / scale, ev[1] / scale);
+	double aux	 = scale * hyp;
 	if(axis.Norm() == 0.0 || (aux == 0.0 && ev[2] > 0.0))
 		return Spherical_Coordinates(r, theta, phi);
 	else if(aux == 0.0)
@@ -292,8 +297,8 @@ Vector Spherical_Coordinates(double r, double theta, double phi, const Vector& a
 		double sin_phi	 = sin(phi);
 
 		// Unit vector of the axis' projection onto the xy plane (the quotients stay finite however small aux is).
-		double tx = ev[0] / aux;
-		double ty = ev[1] / aux;
+		double tx = ev[0] / scale / hyp;
+		double ty = ev[1] / scale / hyp;
 
 		libphysica::Vector unit_vector({cos_theta * ev[0] + sin_theta * (tx * ev[2] * cos_phi - ty * sin_phi),
 										cos_theta * ev[1] + sin_theta * (ty * ev[2] * cos_phi + tx * sin_phi),
